@@ -618,6 +618,25 @@ def flat_pareto(alg, cfg, n):
     return out
 
 
+def regions_are_current(alg, cfg, smodel, pre):
+    """scripted runs: after the step every design that was ACTIVE when the round was modelled displays exactly this round's posterior
+    (the accuracy theorems assume that all active designs are re-modelled every round)"""
+    fam = ALG_FAM[cfg["alg"]]
+    active = set(pre["S"]) | (set(pre["U"]) if fam == "paveba" else set(pre["P"]) if fam == "vogp" else set())
+    for i in active:
+        reg = alg.design_space.confidence_regions[i - 1]
+        lo, hi = smodel.lo[i - 1], smodel.hi[i - 1]
+        if hasattr(reg, "lower"):
+            if not (np.array_equal(np.asarray(reg.lower, dtype=float), lo) and np.array_equal(np.asarray(reg.upper, dtype=float), hi)):
+                return False
+        else:
+            if not np.array_equal(np.asarray(reg.center, dtype=float), lo):
+                return False
+            if smodel.kind == "ell" and not np.array_equal(np.asarray(reg.sigma, dtype=float), smodel.sig[i - 1]):
+                return False
+    return True
+
+
 def poison_discarded(alg, cfg, post):
     """FRAME check: the regions of designs that have left S and are not in P are never read again (specification: every relation the
     round consults is between members of S, U, P).  After every step those regions are overwritten with a far-away box that would
@@ -808,6 +827,8 @@ def record(cfg):
                 step["data"] = {"gained": step["data"]["returned"], "returned": step["data"]["returned"], "synced": True}
         if not exc and ALG_FAM[cfg["alg"]] == "flat":
             step["flat"] = flat_pareto(alg, cfg, n)
+        if smodel is not None and not exc and not (pre["S"] == []):
+            step["modeled"] = regions_are_current(alg, cfg, smodel, pre)
         if smodel is not None and not exc and cfg["script"].get("poison"):
             poison_discarded(alg, cfg, post)
         if smodel is not None and not exc and not smodel.wander:
@@ -836,7 +857,7 @@ def record(cfg):
 
 # --------------------------------------------------------------------------------------------- validation by TLC
 TRACE_KEYS = ("tid", "alg", "n", "m", "batch", "costs", "budget", "L", "steps", "final")
-STEP_KEYS = ("pre", "post", "ret", "exc", "gate", "rel", "amb", "req", "rows", "acq", "acqchk", "data", "skipsets", "flat")
+STEP_KEYS = ("pre", "post", "ret", "exc", "gate", "rel", "amb", "req", "rows", "acq", "acqchk", "data", "skipsets", "flat", "modeled")
 
 
 def to_ndjson(traces, path):
@@ -848,6 +869,7 @@ def to_ndjson(traces, path):
             for s in T["steps"]:
                 s2 = {k: s[k] for k in STEP_KEYS if k in s}
                 s2.setdefault("skipsets", False)
+                s2.setdefault("modeled", True)
                 s2["flat"] = {k: s.get("flat", {}).get(k, []) for k in ("P", "sd", "amb")}
                 s2["data"] = {"gained": s["data"]["gained"], "returned": s["data"]["returned"], "synced": bool(s["data"].get("synced", True))}
                 t["steps"].append(s2)
